@@ -188,6 +188,42 @@ let get = function Ret a -> a | Err e -> raise (Model_err (err_name e))
 
 (* a uniform view of the tree and list models *)
 type mmodel = MT of mstate | ML of lstate
+(* ------------------------------------------------------------------ extraction cross-check
+   With MODELRUN_COQ=<file> the first few short histories are written out as Coq [Example]s stating
+   that the Gallina model, evaluated by the kernel's vm_compute, produces the outputs the extracted
+   OCaml code produced here: compiling that file validates extraction and this driver. *)
+let coq_file = try Some (Sys.getenv "MODELRUN_COQ") with Not_found -> None
+let coq_max = 6
+let coq_emitted = ref 0
+let coq_buf = Buffer.create 4096
+let coq_ops : string list ref = ref [] and coq_outs : string list ref = ref []
+let coq_ok = ref false and coq_head = ref "" and coq_kind = ref ""
+let by_desc = ref ""
+let gz z = Printf.sprintf "(%d)%%Z" (int_of_z z)
+let gn x = Printf.sprintf "%d%%N" (int_of_n x)
+let gopt f = function None -> "None" | Some x -> "(Some " ^ f x ^ ")"
+let gent (a, b) = Printf.sprintf "(%s, %s)" (gz a) (gz b)
+let glist f l = "[" ^ String.concat "; " (List.map f l) ^ "]"
+let gal_mop = function
+  | MIns (k, v) -> Printf.sprintf "MIns %s %s" (gz k) (gz v)
+  | MDel k -> "MDel " ^ gz k
+  | MDelAt h -> "MDelAt " ^ gn h
+  | MGet k -> "MGet " ^ gz k
+  | MIsEmpty -> "MIsEmpty"
+  | MFirst k -> "MFirst " ^ gz k
+  | MFirstBy _ -> "MFirstBy " ^ !by_desc
+  | MValAt h -> "MValAt " ^ gn h
+  | MSetAt (h, v) -> Printf.sprintf "MSetAt %s %s" (gn h) (gz v)
+  | MAfter h -> "MAfter " ^ gn h
+  | MBefore h -> "MBefore " ^ gn h
+  | MClear -> "MClear"
+let gal_mout = function
+  | ONone -> "ONone"
+  | OEnt e -> "OEnt " ^ gopt gent e
+  | OBool b -> "OBool " ^ string_of_bool b
+  | OHandle h -> "OHandle " ^ gopt gn h
+let coq_log o out = if !coq_ok then (coq_ops := o :: !coq_ops; coq_outs := out :: !coq_outs)
+
 let mstep (m: mmodel) (o: mop) : mmodel * mout =
   match m with
   | MT s -> let (s', o') = get (m_step s o) in (MT s', o')
@@ -200,13 +236,14 @@ let run_mapset_op k (m: mmodel ref) (spec: amap ref) (held: n list ref) (held_ke
   : string * string =
   (* returns (model answer, spec answer) *)
   let zi s = z_of_int (int_of_string s) in
-  let step o = let (m', out) = mstep !m o in m := m'; out in
+  let step o = let (m', out) = mstep !m o in m := m'; coq_log (gal_mop o) (gal_mout out); out in
   let hv h = match h with None -> hs None | Some x -> hs h ^ " " ^ fmt_ent k (Option.get (out_ent (step (MValAt x)))) in
   let sv = function None -> "" | Some e -> fmt_ent k e in
   let first_tok tok key = match tok with
     | "F" | "W" | "X" | "A" | "B" | "WF" | "WB" | "HOLD" -> (MFirst key, a_pred !spec key)
-    | "FB" -> (MFirstBy (cmp_to key), a_pred_by !spec (cmp_to key))
-    | "FT" -> (MFirstBy (thresh_lt key), a_pred_by !spec (thresh_lt key))
+    | "FB" -> by_desc := Printf.sprintf "(cmp_to %s)" (gz key); (MFirstBy (cmp_to key), a_pred_by !spec (cmp_to key))
+    | "FT" -> by_desc := Printf.sprintf "(fun x => match Z.compare x %s with Lt => Lt | _ => Gt end)" (gz key);
+              (MFirstBy (thresh_lt key), a_pred_by !spec (thresh_lt key))
     | _ -> failwith "first" in
   match toks with
   | ["I"; a; b] -> ignore (step (MIns (zi a, zi b))); spec := a_insert !spec (zi a) (zi b); ("", "")
@@ -345,6 +382,29 @@ type hstate =
 let answers : (int, string list ref) Hashtbl.t = Hashtbl.create 16   (* for twin comparison *)
 let twin : (int * int) option ref = ref None
 let my_answers : string list ref ref = ref (ref [])
+
+let gal_kop (toks: string list) : string =
+  let zi s = gz (z_of_int (int_of_string s)) in
+  match toks with
+  | ["I"; k; e; v; t] -> Printf.sprintf "KIns %s %s %s %s" (zi k) (zi e) (zi v) (zi t)
+  | ["QL"; t; k] -> Printf.sprintf "KLess %s %s" (zi t) (zi k)
+  | ["QE"; t; k] -> Printf.sprintf "KLessEq %s %s" (zi t) (zi k)
+  | ["QB"; t; k] -> Printf.sprintf "KLessEqBy %s (cmp_to %s)" (zi t) (zi k)
+  | ["QT"; t; k] -> Printf.sprintf "KLessEqBy %s (fun x => match Z.compare x %s with Gt => Gt | _ => Lt end)" (zi t) (zi k)
+  | ["G"; t; k] -> Printf.sprintf "KGet %s %s" (zi t) (zi k)
+  | ["E"] -> "KIsEmpty"
+  | ["C"] -> "KClear"
+  | ["V"; t] -> "KExport " ^ zi t
+  | _ -> coq_ok := false; "?"
+let gal_kout = function
+  | KONone -> "KONone"
+  | KOVal v -> "KOVal " ^ gopt gz v
+  | KOBool b -> "KOBool " ^ string_of_bool b
+  | KOList l -> "KOList " ^ glist gz l
+let gal_sop = function
+  | SIns (a, b, (id, e)) -> Printf.sprintf "SIns %s %s %s" (gz a) (gz b) (gent (id, e))
+  | SQuery (a, b, t, n) -> Printf.sprintf "SQuery %s %s %s %s" (gz a) (gz b) (gz t) (gopt (fun k -> string_of_int (int_of_nat k) ^ "%nat") n)
+  | SClear -> "SClear"
 
 let contains (s: string) (sub: string) : bool =
   let n = String.length s and m = String.length sub in
@@ -547,6 +607,7 @@ let process_op_line (st: hstate ref) (line: string) ~(terminated: bool) =
       let restore = (match !st with
         | HKey (_, m, b) when forked -> let sm = !m and sb = !b in (fun () -> m := sm; b := sb)
         | _ -> (fun () -> ())) in
+      if starts_with "!" ans then coq_ok := false;
       if contains ans "!NONTERMINATING" then mismatch "HANG" ~impl:ans ~model:"the walk ends at the empty sentinel";
       if starts_with "!HANG" ans then begin
         mismatch "HANG" ~impl:ans ~model:"the operation returns"; st := HDead
@@ -598,11 +659,13 @@ let process_op_line (st: hstate ref) (line: string) ~(terminated: bool) =
                ignore forked;
                let ((s', out), evs) = get (k_step s o) in
                m := KT s';
+               if forked then coq_ok := false else coq_log (gal_kop toks) (gal_kout out);
                let calls = List.filter_map (fun ((kind, e), _) -> match kind with EvCmp -> Some (Printf.sprintf "%d:%d" (int_of_z e.kk) (int_of_z e.kexp)) | EvExp -> None) evs in
                (fmt_kout out, Some calls, int_of_n (k_export_capacity s))
              | KL s ->
                let (s', out) = kl_step max_exp_i32 s o in
                m := KL s';
+               if forked then coq_ok := false else coq_log (gal_kop toks) (gal_kout out);
                (fmt_kout out, None, (match o with KExport t -> List.length (kl_clear_expired max_exp_i32 s t).kbuf | _ -> 0))) in
           let ans_nocap = unwords (List.filter (fun w -> not (is_cap w)) (words ans)) in
           !my_answers := ans_nocap :: !(!my_answers);
@@ -656,6 +719,7 @@ let process_op_line (st: hstate ref) (line: string) ~(terminated: bool) =
                | _ -> failwith ("unknown seg op: " ^ unwords toks)) in
              let (s', out) = get (seg_step s so) in
              m := Some s';
+             coq_log (gal_sop so) (glist (fun (id, e) -> gent (id, e)) out);
              let mout = unwords (List.map (fun (id, _) -> string_of_int (int_of_z id)) out) in
              !my_answers := sort_words ans :: !(!my_answers);
              if sort_words ans <> sort_words mout then mismatch "ANS" ~impl:ans ~model:mout
@@ -715,13 +779,31 @@ let process_op_line (st: hstate ref) (line: string) ~(terminated: bool) =
                  | _ -> mismatch "CHUNKS" ~impl:snap ~model:"parsable snapshot")))
         ); restore ()
       with
-      | Model_err e -> mismatch "MODELERR" ~impl:ans ~model:("model returned " ^ e); st := HDead
-      | Failure e -> mismatch "RUNNER" ~impl:line ~model:("runner failure: " ^ e); st := HDead
-      | Not_found -> mismatch "RUNNER" ~impl:line ~model:"runner failure: Not_found"; st := HDead
-      | Invalid_argument e -> mismatch "RUNNER" ~impl:line ~model:("runner failure: " ^ e); st := HDead)
+      | Model_err e -> coq_ok := false; mismatch "MODELERR" ~impl:ans ~model:("model returned " ^ e); st := HDead
+      | Failure e -> coq_ok := false; mismatch "RUNNER" ~impl:line ~model:("runner failure: " ^ e); st := HDead
+      | Not_found -> coq_ok := false; mismatch "RUNNER" ~impl:line ~model:"runner failure: Not_found"; st := HDead
+      | Invalid_argument e -> coq_ok := false; mismatch "RUNNER" ~impl:line ~model:("runner failure: " ^ e); st := HDead)
     end
 
+let coq_emit () =
+  (match coq_file with
+   | Some _ when !coq_ok && !coq_emitted < coq_max && !coq_ops <> [] && List.length !coq_ops <= 80 ->
+     let ops = "[" ^ String.concat ";\n      " (List.rev !coq_ops) ^ "]" in
+     let outs = "[" ^ String.concat ";\n      " (List.rev !coq_outs) ^ "]" in
+     incr coq_emitted;
+     let name = Printf.sprintf "xcheck_%d" !coq_emitted in
+     (match !coq_kind with
+      | "mtree" -> Buffer.add_string coq_buf (Printf.sprintf "Example %s : exists s, m_run (m_new %s) %s\n  = Ret (s, %s).\nProof. eexists. vm_compute. reflexivity. Qed.\n\n" name !coq_head ops outs)
+      | "mlist" -> Buffer.add_string coq_buf (Printf.sprintf "Example %s : exists s, ml_run [] %s\n  = Ret (s, %s).\nProof. eexists. vm_compute. reflexivity. Qed.\n\n" name ops outs)
+      | "ktree" -> Buffer.add_string coq_buf (Printf.sprintf "Example %s : exists s, k_run (k_new %s) %s\n  = Ret (s, %s).\nProof. eexists. vm_compute. reflexivity. Qed.\n\n" name !coq_head ops outs)
+      | "klist" -> Buffer.add_string coq_buf (Printf.sprintf "Example %s : snd (kl_run 2147483647%%Z (kl_new 2147483647%%Z) %s)\n  = %s.\nProof. vm_compute. reflexivity. Qed.\n\n" name ops outs)
+      | "seg" -> Buffer.add_string coq_buf (Printf.sprintf "Example %s : exists s0 s, seg_new %s = Some s0 /\\ seg_run s0 %s\n  = Ret (s, %s).\nProof. do 2 eexists. split; [vm_compute; reflexivity|vm_compute; reflexivity]. Qed.\n\n" name !coq_head ops outs)
+      | _ -> decr coq_emitted)
+   | _ -> ());
+  coq_ok := false; coq_ops := []; coq_outs := []
+
 let finish_history () =
+  coq_emit ();
   (match !twin with
    | Some (h, off) ->
      (match Hashtbl.find_opt answers h with
@@ -769,6 +851,15 @@ let () =
           if Hashtbl.length answers > 64 then Hashtbl.remove answers (!cur_hist - 64);
           let cap = (match ps with c :: _ -> c | [] -> 0) in
           peak := 0; cap_hint := cap;
+          coq_ops := []; coq_outs := [];
+          coq_ok := (coq_file <> None && !twin = None && not (List.mem "inject" (words line)));
+          (match coll with
+           | "maptree" | "settree" -> coq_kind := "mtree"; coq_head := Printf.sprintf "%d%%N" cap
+           | "maplist" | "setlist" -> coq_kind := "mlist"
+           | "keytree" -> coq_kind := "ktree"; coq_head := Printf.sprintf "%d%%N" cap
+           | "keylist" -> coq_kind := "klist"
+           | "seg" -> (match ps with [lo; hi] -> coq_kind := "seg"; coq_head := Printf.sprintf "(%d)%%Z (%d)%%Z" lo hi | _ -> coq_kind := "")
+           | _ -> coq_kind := "");
           st := (match coll with
             | "maptree" -> HMap ({ is_set = false; is_list = false }, ref (MT (m_new (n_of_int cap))), ref [], ref [], ref [])
             | "settree" -> HMap ({ is_set = true; is_list = false }, ref (MT (m_new (n_of_int cap))), ref [], ref [], ref [])
@@ -805,4 +896,11 @@ let () =
   Hashtbl.iter (fun k v -> match String.split_on_char ' ' k with
     | [l; c; o] -> Printf.printf "COUNT level=%s coll=%s opk=%s n=%d\n" l c o v
     | _ -> Printf.printf "COUNT level=%s coll=- opk=- n=%d\n" k v) counts;
+  (match coq_file with
+   | Some f ->
+     let oc = open_out f in
+     output_string oc "From Coq Require Import List NArith ZArith.\nImport ListNotations.\nRequire Import ITree.Model.Common ITree.Model.RBTree ITree.Model.Pool ITree.Model.MapModel ITree.Model.KeyModel ITree.Model.ListModel ITree.Model.SegModel.\n\n";
+     Buffer.output_buffer oc coq_buf; close_out oc;
+     Printf.printf "STAT coq_examples=%d\n" !coq_emitted
+   | None -> ());
   Hashtbl.iter (fun k v -> Printf.printf "STAT %s=%d\n" k v) stats
